@@ -57,6 +57,17 @@ def appOrderOk : GC → Bool
   | p :: q :: _ => !(p.1.isEmpty && !containsNL q.1)
   | _ => true
 
+/-- an `assert … ; …` node -/
+def Cst.isAsrt : Cst → Bool
+  | .kw false .. => true
+  | _ => false
+
+def Items.noCmt : Items → Bool
+  | .nil => true
+  | .cmt .. => false
+  | .elem _ _ rest => rest.noCmt
+  | .bind _ _ _ _ _ _ _ _ _ rest => rest.noCmt
+
 mutual
 /-- A comment that is attached to the previous item (same row) while comments are still pending in
     `before` overtakes them. `orderOk` says this does not happen: `pending` = "`before` holds a
@@ -68,13 +79,17 @@ def Cst.orderOk : Cst → Bool
   | .paren its _ => its.orderOk .paren .none false false
   | .app f cs _ a => f.orderOk && appOrderOk cs && a.orderOk
   | .kw _ _ _ h _ _ _ _ b => h.orderOk && b.orderOk
+/-- An `assert` renders its trailing trivia (`after`) between its `;` and its body: a comment that the
+    enclosing sequence attaches to an `assert` item (any comment after it: top level, parentheses) comes
+    out in front of the body (`C03.cex_comment_after_assert`). The value of a binding is rendered without
+    its trailing trivia, which are written after the binding's `;`: no condition there. -/
 def Items.orderOk : Items → Mode → Prev → Bool → Bool → Bool
   | .nil, _, _, _, _ => true
   | .cmt g _ rest, m, prev, pending, hasItem =>
     let inl := prevAllowsInline m prev && !containsNL g && hasItem
     if inl then !pending && rest.orderOk m .cmt pending hasItem
     else rest.orderOk m .cmt true hasItem
-  | .elem _ c rest, m, _, _, _ => c.orderOk && rest.orderOk m .item false true
+  | .elem _ c rest, m, _, _, _ => c.orderOk && (!c.isAsrt || rest.noCmt) && rest.orderOk m .item false true
   | .bind _ _ _ _ _ _ v _ _ rest, m, _, _, _ => v.orderOk && rest.orderOk m .item false true
 end
 
@@ -96,7 +111,7 @@ def Items.orderOkSeq : Items → Mode → Prev → Bool → Bool → Bool
     let inl := prevAllowsInline m prev && !containsNL g && hasItem
     if inl then !pending && rest.orderOkSeq m .cmt pending hasItem
     else rest.orderOkSeq m .cmt true hasItem
-  | .elem _ c rest, m, _, _, _ => c.orderOkSeq && rest.orderOkSeq m .item false true
+  | .elem _ c rest, m, _, _, _ => c.orderOkSeq && (!c.isAsrt || rest.noCmt) && rest.orderOkSeq m .item false true
   | .bind _ _ _ _ _ _ v _ _ rest, m, _, _, _ => v.orderOkSeq && rest.orderOkSeq m .item false true
 end
 
@@ -238,6 +253,27 @@ def allBeforeFlatP : List Expr → Bool
 end
 
 def Src.beforeFlatP (s : Src) : Bool := allBeforeFlatP s.exprs
+
+mutual
+/-- `orderOk` without the condition on `assert` items (used to state that it is needed) -/
+def Cst.orderOkNA : Cst → Bool
+  | .leaf _ _ => true
+  | .list its _ => its.orderOkNA .list .none false false
+  | .set _ _ its _ => its.orderOkNA .set .none false false
+  | .paren its _ => its.orderOkNA .paren .none false false
+  | .app f cs _ a => f.orderOkNA && appOrderOk cs && a.orderOkNA
+  | .kw _ _ _ h _ _ _ _ b => h.orderOkNA && b.orderOkNA
+def Items.orderOkNA : Items → Mode → Prev → Bool → Bool → Bool
+  | .nil, _, _, _, _ => true
+  | .cmt g _ rest, m, prev, pending, hasItem =>
+    let inl := prevAllowsInline m prev && !containsNL g && hasItem
+    if inl then !pending && rest.orderOkNA m .cmt pending hasItem
+    else rest.orderOkNA m .cmt true hasItem
+  | .elem _ c rest, m, _, _, _ => c.orderOkNA && rest.orderOkNA m .item false true
+  | .bind _ _ _ _ _ _ v _ _ rest, m, _, _, _ => v.orderOkNA && rest.orderOkNA m .item false true
+end
+
+def File.orderOkNA (f : File) : Bool := f.items.orderOkNA .file .none false false
 
 /-! ### the part of the fragment without `with` / `assert`
 
